@@ -144,6 +144,14 @@ def datagrams(rng, tier):
                   build(headers=[base_headers()[0], b"From: <sip:a@example.org>;tag=f" + c] + base_headers()[2:]),
                   build(headers=base_headers(cseq="1 OPT" + ch)) if False else build(headers=[x for x in base_headers() if not x.startswith(b"CSeq")] + [b"CSeq: 1 OPT" + c])):
             out.append(("edge", m))
+    # escapes in every component of a URI that may carry them - also the (deprecated, still legal) password - in the Request-URI and in
+    # From / To / Contact
+    for uri in (b"sip:bob:pa%24s@example.org", b"sip:bob:%41@example.org", b"sip:b%6Fb:pw%3A%40x@example.org", b"sips:a:%25%32%35@example.org:5061", b"sip:bob:pa%zzs@example.org",
+                b"sip:bob:%@example.org", b"sip:bob:p%4@example.org", b"sip:%62ob@ex%61mple.org", b"sip:bob@example.org;p%61r=v%61l", b"sip:bob@example.org?h%61=v%61l", b"sip:bob:%c3%a9@example.org",
+                b"sip:bob:%ff%fe@example.org"):
+        out.append(("edge", build(start=b"OPTIONS " + uri + b" SIP/2.0")))
+        out.append(("edge", build(headers=[base_headers()[0], b"From: <" + uri + b">;tag=f"] + base_headers()[2:])))
+        out.append(("edge", build(headers=base_headers(extra=[b"Contact: <" + uri + b">"]))))
     for s in (b"", b"\r", b"\n", b"\r\n\r", b"\r\n\r\n\r\n", b":", b"a:b", b"\r\n:\r\n\r\n", b"X\r\n\r\n", b"X\r\n:\r\n\r\n", b" \r\n\r\n", b"SIP/2.0\r\n\r\n",
               b"SIP/2.0 999999999999999999999 x\r\n\r\n", b"SIP/2.0 99 x\r\n\r\n", b"OPTIONS  SIP/2.0\r\n\r\n", b"OPTIONS sip:%zz SIP/2.0\r\n\r\n",
               b"OPTIONS sip:[::1 SIP/2.0\r\n\r\n", b"OPTIONS sip:a@b:99999 SIP/2.0\r\n\r\n", b"OPTIONS sip:a SIP/9.9\r\n\r\n", b"\x00\x01\x00\x00\x21\x12\xa4\x42" + b"\x00" * 12,
